@@ -449,3 +449,80 @@ Proof.
     + apply Nat.eqb_eq in Q. subst u. rewrite wstep_target. destruct (nth_error w t); reflexivity.
     + apply Nat.eqb_neq in Q. rewrite wstep_other; [reflexivity|congruence].
 Qed.
+
+(* ======================================================================================= *)
+(* the refinement equation, operation by operation (as stated in Props/C14.v)               *)
+
+Lemma refine_append_curve : forall s a,
+  ires_map abs (append_curve s a) = IOk (abs s ++ [entry_of a]).
+Proof. intros. apply (refine_append_item s a). Qed.
+
+Lemma refine_insert_curve : forall s ix a,
+  ires_map abs (insert_curve s ix a) = IOk (py_insert ix (entry_of a) (abs s)).
+Proof. intros. apply refine_insert_item. Qed.
+
+Lemma refine_append_curve_item : forall s x,
+  ires_map abs (append_curve_item s x) =
+  match x with CItem a => IOk (abs s ++ [entry_of a]) | NotCurveItem => IErr AssertionError end.
+Proof. intros s [a|]; [apply refine_append_item|reflexivity]. Qed.
+
+Lemma refine_insert_curve_item : forall s ix x,
+  ires_map abs (insert_curve_item s ix x) =
+  match x with CItem a => IOk (py_insert ix (entry_of a) (abs s)) | NotCurveItem => IErr AssertionError end.
+Proof. intros s ix [a|]; [apply refine_insert_item|reflexivity]. Qed.
+
+Lemma refine_delete_curve : forall s mn ix,
+  ires_map abs (delete_curve s mn ix) =
+  match resolve_addr (keys s) mn ix with
+  | IOk z => match py_del z (abs s) with Some l => IOk l | None => IErr IndexError end
+  | IErr e => IErr e
+  end.
+Proof.
+  intros. unfold delete_curve. destruct (resolve_addr (keys s) mn ix) as [z|e]; [apply refine_pop|reflexivity].
+Qed.
+
+Lemma refine_update_curve : forall s mn ix u,
+  ires_map abs (update_curve s mn ix u) =
+  match resolve_addr (keys s) mn ix with
+  | IOk z => match py_index (List.length (abs s)) z with
+             | Some n => IOk (update_at n (upd_entry u) (abs s))
+             | None => IErr IndexError
+             end
+  | IErr e => IErr e
+  end.
+Proof.
+  intros. unfold update_curve. destruct (resolve_addr (keys s) mn ix) as [z|e]; [|reflexivity].
+  apply refine_update_at.
+Qed.
+
+Lemma refine_replace_curve_item : forall s ix a,
+  ires_map abs (replace_curve_item s ix a) =
+  match py_set ix (entry_of a) (abs s) with Some l => IOk l | None => IErr IndexError end.
+Proof. intros. apply refine_replace. Qed.
+
+Lemma refine_setitem : forall s k v,
+  ires_map abs (setitem s k v) = spec_step (abs s) (resolve (keys s) (OSetItem k v)).
+Proof. intros. apply (refine s (OSetItem k v)). Qed.
+
+(* the four branches spelled out *)
+Lemma refine_setitem_array_present : forall s k d n, key_index (keys s) k = Some n ->
+  ires_map abs (setitem s k (VArr d)) = spec_step (abs s) (SUpdate (Z.of_nat n) (mkUpd (Some d) None None None)).
+Proof. intros s k d n K. rewrite refine_setitem. simpl. rewrite K. reflexivity. Qed.
+Lemma refine_setitem_array_missing : forall s k d, key_index (keys s) k = None ->
+  ires_map abs (setitem s k (VArr d)) = IOk (abs s ++ [(k, ([], [], []), d)]).
+Proof. intros s k d K. rewrite refine_setitem. simpl. rewrite K. reflexivity. Qed.
+Lemma refine_setitem_item_mismatch : forall s k a, k <> useful_of (c_mnem a) ->
+  setitem s k (VItem a) = IErr KeyError.
+Proof.
+  intros s k a N. unfold setitem. simpl. apply str_eqb_neq in N. rewrite N. reflexivity.
+Qed.
+Lemma refine_setitem_item_present : forall s k a n, k = useful_of (c_mnem a) -> key_index (keys s) k = Some n ->
+  ires_map abs (setitem s k (VItem a)) = spec_step (abs s) (SReplace (Z.of_nat n) (entry_of a)).
+Proof.
+  intros s k a n E K. rewrite refine_setitem. simpl. rewrite <- E, str_eqb_refl, K. reflexivity.
+Qed.
+Lemma refine_setitem_item_missing : forall s k a, k = useful_of (c_mnem a) -> key_index (keys s) k = None ->
+  ires_map abs (setitem s k (VItem a)) = IOk (abs s ++ [entry_of a]).
+Proof.
+  intros s k a E K. rewrite refine_setitem. simpl. rewrite <- E, str_eqb_refl, K. reflexivity.
+Qed.
